@@ -16,6 +16,7 @@ Inductive vkind :=
 | V_cookie_missing      (* UDP + EDNS request without cookie though the server is not known unsupported *)
 | V_malformed_req       (* cookie option sent is shorter than 8 bytes *)
 | V_client_unstable     (* client part changed without a rotation event *)
+| V_source_shared       (* source address changed, the cookie sent was not generated for this transmission *)
 | V_echo                (* server part sent is not the last accepted server cookie *)
 | V_supported_accepts   (* server has proven support, response without valid cookie was accepted *)
 | V_mismatch_accepted   (* response with bad length / wrong client part / illegal BADCOOKIE was not dropped *)
@@ -28,13 +29,11 @@ Inductive vkind :=
 Definition us (t : tv) : Z := tv_sec t * 1000000 + tv_usec t.
 Definition elapsed_ge (since now : tv) (ms : Z) : bool := us now - us since >=? ms * 1000.
 
-(* "same source address": same family and same address bytes; unknown (AF_UNSPEC) addresses
-   are all the same address *)
+(* "same source address": the same (family, address bytes) - deliberately NOT the code's
+   ares_addr_equal (which looks at 4 or 16 bytes depending on the family): plain equality of everything
+   the connection reports as its local address *)
 Definition addr_same (a b : addr) : bool :=
-  (a_family a =? a_family b) &&
-  (if a_family a =? AF_INET then bytes_eqb (firstn 4 (a_data a)) (firstn 4 (a_data b))
-   else if a_family a =? AF_UNSPEC then true
-   else bytes_eqb (a_data a) (a_data b)).
+  (a_family a =? a_family b) && bytes_eqb (a_data a) (a_data b).
 
 Record ghost := mkG {
   g_last : option (list Z);   (* client part of the cookie last sent over UDP *)
@@ -52,7 +51,7 @@ Definition ghost_init : ghost :=
 
 Definition is_none {A} (o : option A) : bool := match o with None => true | Some _ => false end.
 
-Definition mon_apply (g : ghost) (q : nat) (ip : addr) (now : tv) (tcp : bool) (r : req) : ghost * list vkind :=
+Definition mon_apply (g : ghost) (q : nat) (ip : addr) (now : tv) (rnd : nat -> list Z) (tcp : bool) (r : req) : ghost * list vkind :=
   let greq := upd (g_req g) q r in
   let keep := mkG (g_last g) (g_ip g) (g_since g) (g_reset_ok g) (g_server g) (g_sup g) (g_nocookie g) greq (g_bad g) in
   if tcp then (keep, if is_none (cookie_of r) then [] else [V_tcp_cookie])
@@ -71,12 +70,16 @@ Definition mon_apply (g : ghost) (q : nat) (ip : addr) (now : tv) (tcp : bool) (
     let aged := sup' && elapsed_ge (g_since g) now COOKIE_CLIENT_TIMEOUT_MS in
     let rotation := reset || is_none (g_last g) || moved || aged in
     let v1 := if negb same && negb rotation then [V_client_unstable] else [] in
+    (* two source addresses never share a cookie: after a change of the source address the client part
+       must be one of the random blocks drawn during THIS transmission *)
+    let v0 := if (negb (is_none (g_last g)) && moved) && negb (bytes_eqb p (rnd 0%nat) || bytes_eqb p (rnd 1%nat))
+              then [V_source_shared] else [] in
     let fresh := rotation || negb same in
     let v2 := if bytes_eqb sv (if fresh then [] else g_server g) then [] else [V_echo] in
     (if fresh
      then mkG (Some p) ip now false [] sup' (if regress then None else g_nocookie g) greq (g_bad g)
      else mkG (g_last g) (g_ip g) (g_since g) false (g_server g) sup' (g_nocookie g) greq (g_bad g),
-     v1 ++ v2)
+     v0 ++ v1 ++ v2)
   end.
 
 (* an otherwise valid response that lacks a server cookie *)
@@ -132,7 +135,7 @@ Definition mon_step (g : ghost) (e : event) (o : obs) : ghost * list vkind :=
   | ENew q _ _, ONew r =>
     (mkG (g_last g) (g_ip g) (g_since g) (g_reset_ok g) (g_server g) (g_sup g) (g_nocookie g)
          (upd (g_req g) q r) (upd (g_bad g) q 0), [])
-  | EApply q _ ip now _, OApply tcp st r _ => mon_apply g q ip now tcp r
+  | EApply q _ ip now rnd, OApply tcp st r _ => mon_apply g q ip now rnd tcp r
   | EValidate q rc rcode now, OValidate st rq try utcp => mon_validate g q rc rcode now st rq try utcp
   | _, _ => (g, [])
   end.
